@@ -17,6 +17,11 @@ mod c12;
 mod c12b;
 mod c17;
 mod c18;
+mod c19;
+mod alloc_count;
+
+#[global_allocator]
+static ALLOC: alloc_count::Counting = alloc_count::Counting;
 mod wire;
 mod forge;
 mod prim;
@@ -61,6 +66,8 @@ fn main() {
         "c07" => c07::run(&cases, &out, &tier, seed),
         "c08" => c08::run(&cases, &out, &tier, seed),
         "c15" => c15::run(&cases, &out, &tier, seed),
+        "dbg19" => c19::dbg(),
+        "c19" => c19::run(&cases, &out, &tier, seed),
         "c18" => c18::run(&cases, &out, &tier, seed),
         "c06" => c06::run(&cases, &out, &tier, seed),
         "c16" => c16::run(&cases, &out, &tier, seed),
